@@ -544,3 +544,16 @@ class ZSeq(SVal):
 
     def length(self):
         return SInt(z3.Length(self.e))
+
+
+def Eq(a, b):
+    """structural equality usable in contracts (python tuples compare component-wise)"""
+    if isinstance(a, tuple) or isinstance(b, tuple):
+        if not (isinstance(a, tuple) and isinstance(b, tuple)) or len(a) != len(b):
+            return False
+        parts = [Eq(x, y) for x, y in zip(a, b)]
+        if all(isinstance(p, bool) for p in parts):
+            return all(parts)
+        return And(*parts)
+    r = (a == b)
+    return r
